@@ -194,6 +194,10 @@ def holds(test, F):
                 return F.lens[unparse(e.args[0])]
             return None
         a, b = num(l, lt), num(r, rt)
+        if a is None:
+            a = _value_of(l, F)
+        if b is None:
+            b = _value_of(r, F)
         if a is None or b is None:
             return None
         if isinstance(a, str) != isinstance(b, str):
@@ -221,6 +225,14 @@ def _unalias(e, aliases):
 def _value_of(e, F):
     if isinstance(e, ast.Constant) and isinstance(e.value, (int, float, str)) and not isinstance(e.value, bool):
         return e.value
+    if isinstance(e, ast.BinOp) and isinstance(e.op, (ast.Add, ast.Sub, ast.Mult)):
+        a, b = _value_of(e.left, F), _value_of(e.right, F)
+        if isinstance(a, (int, float)) and isinstance(b, (int, float)):
+            return a + b if isinstance(e.op, ast.Add) else a - b if isinstance(e.op, ast.Sub) else a * b
+        return None
+    if isinstance(e, ast.UnaryOp) and isinstance(e.op, ast.USub):
+        a = _value_of(e.operand, F)
+        return -a if isinstance(a, (int, float)) else None
     t = unparse(e)
     if t in F.values:
         return F.values[t]
